@@ -31,7 +31,10 @@ HHmmText(s) == IF ~HHmmShape(s) THEN Rej
 
 \* HH:mm:ss (system time); texts that are not of the strict shape are a don't-care
 ClockShape(s) == Len(s) = 8 /\ s[3] = 58 /\ s[6] = 58 /\ \A i \in {1, 2, 4, 5, 7, 8} : D(s[i])
-ClockText(s) == IF ~ClockShape(s) THEN DC
+\* (eight characters with the colons in place but something else than a digit in a field - a sign, a blank, a letter - is no time)
+ClockAlmost(s) == Len(s) = 8 /\ s[3] = 58 /\ s[6] = 58 /\ \E i \in {1, 2, 4, 5, 7, 8} : ~D(s[i])
+ClockText(s) == IF ClockAlmost(s) THEN Rej
+                ELSE IF ~ClockShape(s) THEN DC
                 ELSE LET h == N2cp(s, 1) mi == N2cp(s, 4) sec == N2cp(s, 7) IN
                      IF ValidClock(h, mi, sec) THEN Val([h |-> h, mi |-> mi, s |-> sec]) ELSE Rej
 
